@@ -644,6 +644,34 @@ impl<'a> Pool<'a> {
         }
     }
 
+    /// an adjacent group with a nested member that needs two items and gives back what it took
+    /// when the second one is missing: `-a [X Y] [-z]` (`construct!(x, y).fallback(..)` or
+    /// `.optional().catch()`), followed by an optional member
+    pub fn adjacent_group_nested(&mut self) -> Spec {
+        let first = Spec::Item(self.flag_item(Leaf::ReqFlag));
+        let (x, y) = if self.rng.chance(2, 3) {
+            (
+                Spec::Item(self.pos_item(Strict::Any)),
+                Spec::Item(self.pos_item(Strict::Any)),
+            )
+        } else {
+            (Spec::Item(self.arg_item()), Spec::Item(self.arg_item()))
+        };
+        let pair = Spec::Seq(vec![x, y]);
+        let pair = match self.rng.below(3) {
+            0 => Spec::wrap(W::Fallback, self.id(), pair),
+            1 => Spec::wrap(W::FallbackWithOk, self.id(), pair),
+            _ => Spec::wrap(W::Optional { catch: true }, self.id(), pair),
+        };
+        let last = Spec::Item(self.flag_item(Leaf::Switch));
+        let g = Spec::Adj(vec![first, pair, last]);
+        match self.rng.below(4) {
+            0 => g,
+            1 => Spec::wrap(W::Optional { catch: false }, self.id(), g),
+            _ => Spec::wrap(W::Many { catch: false }, self.id(), g),
+        }
+    }
+
     /// a required named item that takes exactly one occurrence
     pub fn simple_required_field(&mut self) -> Spec {
         let s = if self.rng.chance(1, 3) {
